@@ -649,6 +649,51 @@ def rule_ownership(rep: Report, cu: CUnit) -> None:
         if double:
             detail = f'{double[0][1]} released while not owned at {cu.site(g.nodes[double[0][0]].ast, name)}'
         rep.check(ok, 'C11.OWNERSHIP', f'{name}:refs', detail + f' (tracked: {sorted(locals_new)})', cu.site(cu.func(name), name))
+    # a stored (borrowed) object member handed out as a return value: the caller receives a NEW reference, so the member is
+    # INCREF'd on every path to that return (or passed through Py_NewRef / Py_XNewRef)
+    from ..pycfg import must_dataflow
+    n_borrowed = 0
+    for name in cu.funcs:
+        if not cu.func(name).get('type', {}).get('qualType', '').startswith('PyObject *('):
+            continue
+        g2 = None
+        for r in [x for x in walk(cu.body(name)) if x.get('kind') == 'ReturnStmt' and x.get('inner')]:
+            def leaves(e: Dict[str, Any]) -> List[Dict[str, Any]]:
+                e = strip(e)
+                if e.get('kind') == 'ConditionalOperator':
+                    return leaves(e['inner'][1]) + leaves(e['inner'][2])
+                return [e]
+            for lf in leaves(r['inner'][0]):
+                if lf.get('kind') == 'CallExpr' and callee(lf) in ('Py_NewRef', 'Py_XNewRef') and any(
+                        m_.get('kind') == 'MemberExpr' for a_ in call_args(lf) for m_ in walk(a_)):
+                    n_borrowed += 1
+                    rep.ok('C11.OWNERSHIP', f'{name}:return {cu.src_of(lf).replace(" ", "")}', 'handed out through Py_NewRef (a new reference)', cu.site(r, name))
+                    continue
+                if lf.get('kind') != 'MemberExpr' or 'PyObject' not in lf.get('type', {}).get('qualType', ''):
+                    continue
+                n_borrowed += 1
+                member = cu.src_of(lf).replace(' ', '')
+                if g2 is None:
+                    g2 = build_c_cfg(cu, name)
+
+                def gen_kill(node: Any, lab: Optional[str], member: str = member) -> Tuple[Set[str], Set[str]]:
+                    a = node.ast
+                    if isinstance(a, dict) and node.kind in ('stmt', 'cond'):
+                        # Py_INCREF is a macro: the statement's source range is only its name, so the call is read from the tree
+                        for c in walk(a):
+                            if c.get('kind') == 'CallExpr' and callee(c) in ('Py_INCREF', 'Py_XINCREF', '_Py_INCREF', '_Py_XINCREF', 'Py_NewRef', 'Py_XNewRef'):
+                                margs = [lx.show(c_ir(m_, cu.src_of)) for arg in call_args(c) for m_ in walk(arg) if m_.get('kind') == 'MemberExpr']
+                                if member.replace('->', '.') in margs:
+                                    return {'inc'}, set()
+                    return set(), set()
+                IN2 = must_dataflow(g2, g2.entry, gen_kill)
+                rnode = [nd for nd in g2.nodes if nd.kind == 'return' and nd.ast is r]
+                held = bool(rnode) and 'inc' in (IN2.get(rnode[0].id) or frozenset())
+                rep.check(held, 'C11.OWNERSHIP', f'{name}:return {member}', 'INCREF on every path to the return' if held else
+                          'the stored object is returned without a new reference: the caller\'s DECREF frees it while the engine object still points at it',
+                          cu.site(r, name), expected=f'Py_INCREF({member}) before it is handed out')
+    if n_borrowed < 1:
+        raise AnalysisError('C11.OWNERSHIP: no getter hands out a stored object any more (the rule instance vanished)')
     # Py_None handed out only after INCREF / via Py_RETURN_NONE
     for name in cu.funcs:
         for n in walk(cu.body(name)):
